@@ -90,6 +90,13 @@ struct World<'p> {
 	/// in it, step of the restart)
 	reloads: Vec<(usize, HashSet<PaymentId>, usize)>,
 	scids: std::collections::HashMap<u64, ChannelId>,
+	/// per channel of the sender: how many HTLC failures its Channel object held back for a monitor
+	/// update in progress when last looked at (while the manager still had the channel)
+	held_fails: std::collections::HashMap<ChannelId, usize>,
+	/// channels the sender's manager closed while such failures were held back
+	closed_with_held_fails: HashSet<ChannelId>,
+	/// payment hashes ever seen as a pending outbound HTLC of the channel
+	chan_hashes: std::collections::HashMap<ChannelId, HashSet<PaymentHash>>,
 	commit_snaps: Vec<Transaction>,
 	epoch: usize,
 	step: usize,
@@ -124,6 +131,26 @@ impl<'p> World<'p> {
 	fn bad_stale(&mut self, why: String) {
 		let s = self.step;
 		self.violations.push((s, "stale", why));
+	}
+
+	/// Looks at the sender's channels (read-only hooks): failures held back for a monitor update, and
+	/// which payments have an HTLC in which channel.
+	fn sample_sender(&mut self, nodes: &[Node]) {
+		for (a, b, cid) in self.chans.iter() {
+			if *a != 0 && *b != 0 {
+				continue;
+			}
+			let cp = nodes[if *a == 0 { *b } else { *a }].node.get_our_node_id();
+			if let Some((Some(view), _, _)) = lightning::ln::channelmanager::verif_hooks_monupd::monupd_view(nodes[0].node, &cp, cid) {
+				self.held_fails.insert(*cid, view.monitor_pending_failures);
+			}
+		}
+		for ch in nodes[0].node.list_channels() {
+			let set = self.chan_hashes.entry(ch.channel_id).or_insert_with(HashSet::new);
+			for h in ch.pending_outbound_htlcs.iter() {
+				set.insert(h.payment_hash);
+			}
+		}
 	}
 
 	fn take_snapshot(&mut self, nodes: &[Node]) {
@@ -257,6 +284,11 @@ impl<'p> World<'p> {
 				}
 				if i == 0 {
 					match &e {
+						Event::ChannelClosed { channel_id, .. } => {
+							if self.held_fails.get(channel_id).cloned().unwrap_or(0) > 0 {
+								self.closed_with_held_fails.insert(*channel_id);
+							}
+						},
 						Event::PaymentSent { payment_id: Some(id), payment_preimage, payment_hash, .. } => {
 							let ep = self.epoch;
 							let mut why = None;
@@ -428,6 +460,9 @@ impl<'p> World<'p> {
 			},
 			_ => {},
 		}
+		if to == 0 {
+			self.sample_sender(nodes);
+		}
 	}
 
 	fn deliver_kth(&mut self, nodes: &[Node], k: usize) {
@@ -597,6 +632,7 @@ impl<'p> World<'p> {
 		let t: Vec<&str> = line.split_whitespace().collect();
 		let num = |i: usize| -> u64 { t.get(i).and_then(|s| s.parse::<u64>().ok()).unwrap_or(0) };
 		let n = nodes.len();
+		self.sample_sender(nodes);
 		match t[0] {
 			"send" => {
 				let amt = 1_000 * (1 + num(1) % 9_000);
@@ -798,6 +834,7 @@ impl<'p> World<'p> {
 		let mut out = Vec::new();
 		let mut stale_out = Vec::new();
 		let mut lost_out = Vec::new();
+		let mut held_out = Vec::new();
 		for p in self.pays.iter() {
 			if !p.accepted {
 				continue;
@@ -822,7 +859,8 @@ impl<'p> World<'p> {
 			if !p.sent.is_empty() && !p.failed.is_empty() {
 				mine.push(format!("payment {}: both PaymentSent and PaymentFailed were reported", tag));
 			}
-			for ep in 0..=self.epoch {
+			// (after a restart events may be replayed: their handling has to be idempotent)
+			for ep in p.epoch..=p.epoch {
 				if p.sent.iter().filter(|e| **e == ep).count() > 1 || p.failed.iter().filter(|e| **e == ep).count() > 1 {
 					mine.push(format!("payment {}: a terminal event was reported twice without a restart in between", tag));
 				}
@@ -843,7 +881,10 @@ impl<'p> World<'p> {
 			out.extend(mine);
 			if p.sent.is_empty() && p.failed.is_empty() {
 				if listed_pending && pending == 0 {
-					if lost_resolution {
+					let held = self.closed_with_held_fails.iter().any(|c| self.chan_hashes.get(c).map(|hs| hs.contains(&p.hash)).unwrap_or(false));
+					if held {
+						held_out.push(format!("payment {}: the peer's failure of its HTLC was irrevocably committed while a monitor update of the channel was in progress, so the channel held the failure back; the channel was closed before the update completed and the held-back failure was dropped: after quiescence the payment is still listed as pending although no HTLC of it exists anywhere, it never gets a terminal event and its id is refused forever", tag));
+					} else if lost_resolution {
 						lost_out.push(format!("payment {}: the failure of one of its parts was handled before a restart from a manager older than that; afterwards the restored manager waits for that part for ever: the payment stays pending without any HTLC and never gets a terminal event", tag));
 					} else {
 						out.push(format!(
@@ -875,6 +916,10 @@ impl<'p> World<'p> {
 		for o in lost_out {
 			let st = self.step;
 			self.violations.push((st, "lost", o));
+		}
+		for o in held_out {
+			let st = self.step;
+			self.violations.push((st, "heldfail", o));
 		}
 	}
 }
@@ -1015,6 +1060,9 @@ fn main() {
 		snap_info: Vec::new(),
 		reloads: Vec::new(),
 		scids: std::collections::HashMap::new(),
+		held_fails: std::collections::HashMap::new(),
+		closed_with_held_fails: HashSet::new(),
+		chan_hashes: std::collections::HashMap::new(),
 		commit_snaps: Vec::new(),
 		epoch: 0,
 		step: 0,
